@@ -317,6 +317,32 @@ def r12_4(ctx):
     ok = bool(ops) and "HEADER_TREE_SUFFIX" in tsrc and ".lower()" in tsrc and "os.makedirs(" in tsrc and \
         tsrc.index("os.makedirs(") < tsrc.index("os.open(")
     (ctx.ok(construct, t.loc()) if ok else ctx.bad(construct, "the touch no longer truncates/creates the file at the derived path", t.loc()))
+    # distinct names map to distinct files: the option name reaches the path through character-wise operations only (lower,
+    # replace of one character by the separator, concatenation, join) - nothing that drops or merges parts of it
+    from .common import expand_locals
+    construct = "_touch_dep_file/every option name has its own trigger file (the name reaches the path character by character)"
+    name_prm = [a.arg for a in t.node.args.args][1]
+    if not ops:
+        ctx.bad(construct, "no truncating open", t.loc())
+    else:
+        pe = ast.parse(expand_locals(t.node, ops[0][0].args[0]), mode="eval").body
+        bad_op = None
+        for x in ast.walk(pe):
+            if isinstance(x, (ast.ListComp, ast.GeneratorExp, ast.SetComp, ast.DictComp, ast.IfExp, ast.Lambda, ast.Starred, ast.Subscript)):
+                bad_op = type(x).__name__
+            elif isinstance(x, ast.Call):
+                fn_ = ast.unparse(x.func)
+                okc = fn_ in ("os.path.join", "join", "str") or (isinstance(x.func, ast.Attribute) and x.func.attr in ("lower", "upper", "format")) or \
+                    (isinstance(x.func, ast.Attribute) and x.func.attr == "replace" and len(x.args) == 2 and isinstance(x.args[0], ast.Constant)
+                     and isinstance(x.args[0].value, str) and len(x.args[0].value) == 1)
+                if not okc:
+                    bad_op = fn_
+        uses = any(isinstance(x, ast.Name) and x.id == name_prm for x in ast.walk(pe))
+        if bad_op or not uses:
+            ctx.bad(construct, f"the path `{ast.unparse(pe)[:90]}` is computed with `{bad_op}`: two different option names (e.g. `BUF_SIZE` and `BUF_SIZE_`) can share a "
+                    "trigger file - one of them is never flagged and the other is flagged spuriously", t.loc(ops[0][0]))
+        else:
+            ctx.ok(construct, t.loc(ops[0][0]))
 
 
 def r12_5(ctx):
